@@ -149,6 +149,18 @@ CHECKS["C01"] = dict(
          "component; histories of length 2 (quick) / 3 (thorough).",
     ref="6/C01")
 
+CHECKS["C05"] = dict(
+    technique="TLA+ constructor-path model (NetworkSM!Paths, summary definitions) + TLC-enumerated graphs realised through 16 constructor / file paths + TLC trace validation (Val_C05: ReprDef, Functional panel)",
+    text="Gen_C05 enumerates every undirected graph up to NU nodes (incl. edgeless, single-link, N=1,2) and directed graph up to ND nodes "
+         "with unit / non-unit node weights and with / without a link attribute; each abstract network is realised through every path of "
+         "NetworkSM!Paths (dense list, ndarray, csr/csc/coo/lil/dok, edge list +/- n_nodes, igraph object, copy, undirected_copy, "
+         "save->Load for graphml, graphmlz, pickle, gml) and TLC checks for every path N, n_links, link_density, adjacency (symmetric, "
+         "empty diagonal), sp_A, embedded graph, node weights with total and mean, link attribute against the abstract network, and a "
+         "panel of measures that consume the internal representation against the dense path.",
+    note="SpatialNetwork / GeoNetwork / ClimateNetwork save/Load with grid files are not driven yet; undirected_copy is not required "
+         "to keep link attributes.",
+    ref="6/C05")
+
 NOT_APPLICABLE = {
     "C20": "memory safety of compiled kernels is a property of concrete addresses, not of abstract state a TLA+ "
            "specification maintains; nothing binds a PlusCal transcription of index arithmetic to the compiled code "
